@@ -57,6 +57,51 @@ func c14Exec(c *mon.Case) {
 		}
 		return
 	}
+	if parts[2] == "api" {
+		// the encoded form placed in a text and read by the whole tokenizer with string decoding on, through the token
+		// list and the string list entry points (expression: apostrophe literals, CSV: the configured quote)
+		var enc string
+		if p := mon.Try(func() { enc = st.EncodeString(s, q) }); p != nil {
+			c.FailPanic(parts[0]+" EncodeString", p)
+			return
+		}
+		for _, tail := range []string{"", " y", ",z"} {
+			var toks []*tokenizers.Token
+			var strs []string
+			if p := mon.Try(func() {
+				var t tokenizers.ITokenizer
+				if parts[0] == "csv" {
+					ct := csv.NewCsvTokenizer()
+					if q != '"' {
+						ct.SetQuoteSymbols([]rune{q})
+					}
+					t = ct
+				} else {
+					t = ctok.NewExpressionTokenizer()
+				}
+				t.SetDecodeStrings(true)
+				toks = t.TokenizeBuffer(enc + tail)
+				strs = t.TokenizeBufferToStrings(enc + tail)
+			}); p != nil {
+				c.FailPanic(parts[0]+" tokenizer with string decoding", p)
+				return
+			}
+			if len(toks) == 0 || toks[0].Type() != tokenizers.Quoted || toks[0].Value() != s {
+				c.Failf(parts[0]+" tokenizer: an encoded string in a text is not read back as one token with the original as decoded value", "quote=%q s=%q text=%q tokens=%s", q, s, enc+tail, toksOf(toks))
+				return
+			}
+			okStrs := len(strs) == len(toks)
+			for i := 0; okStrs && i < len(toks); i++ {
+				okStrs = strs[i] == toks[i].Value()
+			}
+			if !okStrs {
+				c.Failf(parts[0]+" tokenizer: the string list of a text with an encoded string is not the list of token values", "quote=%q s=%q text=%q tokens=%s strings=%q", q, s, enc+tail, toksOf(toks), strs)
+				return
+			}
+		}
+		c.NonTrivial()
+		return
+	}
 	var enc, dec string
 	if p := mon.Try(func() { enc = st.EncodeString(s, q) }); p != nil {
 		c.FailPanic(parts[0]+" EncodeString", p)
@@ -112,7 +157,7 @@ func buildC14(cfg *mon.Config) []*mon.Sub {
 				if q == '\'' {
 					other = "\""
 				}
-				alpha := []string{string(q), other, "a", "é", "€", "😀", " ", "\n", "\ufffd"}
+				alpha := []string{string(q), other, "n", "é", "€", "😀", " ", "\n", "\ufffd", "\\"}
 				enumStrings(alpha, maxL, func(parts []string) {
 					s := joinParts(parts)
 					for _, st := range c14States {
@@ -124,7 +169,7 @@ func buildC14(cfg *mon.Config) []*mon.Sub {
 	}
 	rt := &mon.Sub{
 		Name:          "roundtrip-and-stream-exhaustive",
-		Rule:          fmt.Sprintf("every string of length <= %d over {quote, other quote, a, é (2-byte), € (3-byte), 😀 (4-byte), space, LF} x quote in {apostrophe, double quote, backtick, «, Ч, •, percent sign} x the generic, expression and CSV quote states: decode(encode(s)) = s; for expression and CSV, encode(s)+tail (five tails) read by the state's NextToken is one token equal to encode(s), leaves the tail unread and decodes to s; non-trivial = s contains a multi-byte character or the quote", maxL),
+		Rule:          fmt.Sprintf("every string of length <= %d over {quote, other quote, n, é (2-byte), € (3-byte), 😀 (4-byte), space, LF, U+FFFD, backslash} x quote in {apostrophe, double quote, backtick, «, Ч, •, percent sign} x the generic, expression and CSV quote states: decode(encode(s)) = s; for expression and CSV, encode(s)+tail (five tails) read by the state's NextToken is one token equal to encode(s), leaves the tail unread and decodes to s; non-trivial = s contains a multi-byte character or the quote", maxL),
 		Exhaustive:    true,
 		DistinctByGen: true,
 		Floor:         1000,
@@ -142,11 +187,11 @@ func buildC14(cfg *mon.Config) []*mon.Sub {
 	}
 	rnd := &mon.Sub{
 		Name:  "random-long",
-		Rule:  "seeded random strings of up to 100 runes from ASCII, Latin-1, BMP, astral, quotes, CR/LF x quote characters x the three states, round trip, stream and decode-only modes",
+		Rule:  "seeded random strings of up to 100 runes from ASCII, Latin-1, BMP, astral, quotes, CR/LF x quote characters x the three states, round trip, stream and decode-only modes; a quarter of the strings (also texts with backslash sequences, percent and ampersand escapes of other conventions) additionally through the whole expression / CSV tokenizer with string decoding on: the encoded form followed by three tails must come back as first token of type Quoted with the original as value, and TokenizeBufferToStrings must list exactly the token values",
 		Floor: 1000,
 		Gen: func(emit func(string)) {
 			r := cfg.Rng("c14-random")
-			pool := []string{"a", "Z", "0", " ", "\n", "\r", "\t", "'", "\"", "`", "«", "»", "é", "ÿ", "ш", "€", "￾", "😀", "𝄞", "''", "\"\"", ",", ";", "\ufeff", "\u00a0", "\u2028", "%", "%s", "Ч", "•", "\ufffd", "\x00", "\x01"}
+			pool := []string{"a", "Z", "0", " ", "\n", "\r", "\t", "'", "\"", "`", "«", "»", "é", "ÿ", "ш", "€", "￾", "😀", "𝄞", "''", "\"\"", ",", ";", "\ufeff", "\u00a0", "\u2028", "%", "%s", "Ч", "•", "\ufffd", "\x00", "\x01", "\\", "\\n", "\\t", "\\r", "\\\\", "\\'", "\\\"", "\\u0041", "\\x41", "n", "t", "%20", "&amp;", "&#39;", "$1", "${x}"}
 			for i := 0; i < cfg.N(30000, 2000000); i++ {
 				var b strings.Builder
 				n := r.Intn(100)
@@ -158,6 +203,14 @@ func buildC14(cfg *mon.Config) []*mon.Sub {
 					mode = "dec"
 				}
 				emit(mon.Pick(r, c14States) + "\x00" + string(mon.Pick(r, c14Quotes)) + "\x00" + mode + "\x00" + b.String())
+				if i%4 == 0 {
+					// through the whole tokenizer: apostrophe literals of the expression language, CSV with the quote configured
+					if r.Bool() {
+						emit("expression\x00'\x00api\x00" + b.String())
+					} else {
+						emit("csv\x00" + string(mon.Pick(r, []rune{'"', '\'', '`', '«'})) + "\x00api\x00" + b.String())
+					}
+				}
 			}
 		},
 		Exec: c14Exec,
